@@ -222,6 +222,8 @@ def gen_cases(rng, n_cases):
                     meta['namelen'] = c['namelen']
                 if c.get('easy'):
                     meta['easy'] = True
+                if c.get('mixed'):
+                    meta['mixed'] = True
                 if c.get('capi'):
                     meta['capi'] = True
                 add('corpus:' + fn[:-5], bytes.fromhex(c['hex']), c['nv'], c['nc'], tuple(c.get('pol', (0, 'all', 'all', 'all'))), **meta)
@@ -249,11 +251,20 @@ def gen_cases(rng, n_cases):
             # the library's own handler: NLSolver::ReadSolution() / SOLHandler_Easy (nl-writer2/src/nl-solver.cc) on valid and damaged files
             s0 = solgen.rand_sol(rng, maxn=rng.choice([3, 12]), with_options=True)
             s0.nvars = max(1, s0.nvars)
+            mixed = rng.random() < 0.7
+            if mixed:
+                # partial primal / dual vectors (0 < n_primal < num_vars) on a model whose variable permutation is not the identity
+                s0.nvars = max(s0.nvars, rng.choice([3, 5, 6, 9]))
+                k = rng.choice([0, 1, s0.nvars // 2, s0.nvars - 1, s0.nvars])
+                s0.primals = [solgen.rand_double(rng) for _ in range(k)]
+                s0.ncons = max(s0.ncons, rng.choice([1, 3]))
+                s0.duals = s0.duals[:rng.choice([0, 1, s0.ncons])]
+                s0.sufs = [x for x in s0.sufs if True]
             b = solgen.bin_bytes(s0) if binary else solgen.text_bytes(s0)
             mut = 'valid'
-            if rng.random() < 0.5:
+            if rng.random() < 0.3:
                 b, mut = solgen.mutate(rng, b, binary)
-            add('easy-handler:' + mut, b, s0.nvars, s0.ncons, (0, 'while', 'while', 'while'), easy=True)
+            add('easy-handler%s:%s' % ('-permuted' if mixed else '', mut), b, s0.nvars, s0.ncons, (0, 'while', 'while', 'while'), easy=True, mixed=mixed)
         elif r < 0.12 and not binary:
             # printf directives inside the offending line of every malformed-line kind (text format quotes lines in its messages)
             b, nv_true, nc_true, kinds = solgen.printf_hostile_text(rng)
@@ -341,7 +352,7 @@ P4 = {'objno': False, 'isuf': False}   # tree has repo_patches/C14-objno-int-ran
 def case_line(c, for_driver=False):
     rv, da, pa, sa = c['pol']
     if c.get('easy'):
-        da = pa = sa = 'while' if for_driver else 'easy'
+        da = pa = sa = 'while' if for_driver else ('easyp' if c.get('mixed') else 'easy')
     if c.get('capi'):
         da = pa = sa = 'all' if for_driver else 'capi'
     if c.get('missing') and not for_driver:
@@ -556,7 +567,7 @@ def run(ck):
         ck.add_violation('translator:sol-guards', 'the integer decisions of the SOL reader/writer could not be re-translated from the source (the code around them changed): %s' % tr_err,
                          {'translator': 'translators/gen_solguards.py', 'output': tr_err}, found_input=False)
     proof_ok, failing = ck.proof_stage('MpVerif.C14.Props', 'MpVerif/C14/Props.lean', 'C14_',
-                                        ['MpVerif/C14/*.lean', 'MpVerif/Gen/SolGuards.lean'], expect_min=36)
+                                        ['MpVerif/C14/*.lean', 'MpVerif/Gen/SolGuards.lean'], expect_min=37)
     ck.log('proof stage: ok=%s failing=%s' % (proof_ok, failing[:12]))
     if ck.tier == 'thorough' and proof_ok:
         bad = ck.leanchecker(['MpVerif.C14.Props'])
@@ -577,7 +588,9 @@ def run(ck):
     corr_bad = []
     model_classes = set()
     n_easy = [0]
+    n_perm = [0]
     n_capi = [0]
+    n_capi_opts = [0, 0]
     uninit_cases = []
     ub_hits = {}
     n_events = 0
@@ -623,6 +636,16 @@ def run(ck):
             if mo and int(mo.group(1)) > int(mo.group(2)):
                 ck.add_violation('c-api:ampl-options-copy:n_options-exceeds-array', 'AMPLOptions_C handed to the C callback says n_options_ = %s for an array of %s'
                                  % (mo.group(1), mo.group(2)), {'case': case_line(c), 'impl': il, 'model': ml})
+            # every value of every options block must arrive in the C struct: n_options_ = nOpts + 5 and the same values, in order
+            wo = [e for e in want.split(' ; ') if e.startswith('opts ')]
+            go = [e for e in body.split(' ; ') if e.startswith('opts ')]
+            if wo != go:
+                ck.add_violation('c-api:ampl-options-delivery', 'the options block handed to the C callback differs from what the reader delivers: got %s, expected %s'
+                                 % (go, wo), {'case': case_line(c), 'impl': il, 'model': ml})
+            elif wo:
+                n_capi_opts[0] += 1
+                if nopts is not None and nopts > 9:
+                    n_capi_opts[1] += 1
             if not capi_match(want, body):
                 corr_bad.append((c, il, ml, 'C API result differs; model expects: ' + want))
             codes['capi:' + want.split(' ')[0].split('=')[1]] = codes.get('capi:' + want.split(' ')[0].split('=')[1], 0) + 1
@@ -643,6 +666,31 @@ def run(ck):
             want, (want_code, alt_code) = easy_expected(expn.partition(' ')[2], c['nv'], c['nc'])
             head, _, body = il.partition(' | ')
             rc = head.split(' ')[1].split('=')[1]
+            mpx = re.search(r' perm=(\S+) xv=(\S+)$', body)
+            if mpx:
+                body = body[:mpx.start()]
+                perm = [int(t) for t in mpx.group(1).split(',')] if mpx.group(1) != '-' else []
+                xv = mpx.group(2).split(',') if mpx.group(2) != '-' else []
+                # the solution vector: exactly NumCols entries, the file's values at their un-permuted positions, zeros elsewhere
+                pe = [e for e in expn.partition(' | ')[2].split(' ; ') if e.startswith('primal ')]
+                if pe:
+                    pp = pe[0].split(' ')
+                    vals = pp[4].split(',') if pp[4] != '-' else []
+                    if len(xv) != c['nv']:
+                        ck.add_violation('easy-handler:solution-vector-size', 'NLSolution::x_ has %d entries for a model with %d variables (%s primal values in the file)'
+                                         % (len(xv), c['nv'], pp[1]), {'case': case_line(c), 'impl': il, 'model': ml})
+                    elif pp[2] == 'OK' and len(perm) == c['nv']:
+                        wantx = ['R0000000000000000'] * c['nv']
+                        for k2, v2 in enumerate(vals):
+                            wantx[perm[k2]] = v2
+                        if wantx != xv:
+                            ck.add_violation('easy-handler:solution-vector-values', 'NLSolution::x_ = %s, expected the file values un-permuted with zeros elsewhere: %s (vperm_inv = %s)'
+                                             % (xv[:8], wantx[:8], perm[:8]), {'case': case_line(c), 'impl': il, 'model': ml})
+                    if perm != list(range(len(perm))):
+                        n_perm[0] += 1
+                elif xv:
+                    ck.add_violation('easy-handler:solution-vector-size', 'NLSolution::x_ has %d entries although no primal vector was delivered' % len(xv),
+                                     {'case': case_line(c), 'impl': il, 'model': ml})
             m = re.match(r'easy ok=(\d) x=(\d+) y=(\d+) ', body)
             if m and (int(m.group(2)) > c['nv'] or int(m.group(3)) > c['nc']):
                 ck.add_violation('easy-handler:more-values-than-the-problem-has', 'NLSolution holds %s primal / %s dual values for a problem with %d variables / %d constraints'
@@ -732,7 +780,7 @@ def run(ck):
         'generator_families': fam, 'result_codes_hit': codes, 'event_kinds_hit': evkinds, 'events_total': n_events,
         'known_ub_classes_hit': ub_hits,
         'model_outcome_classes': len(model_classes), 'model_result_codes': sorted({m[1] for m in model_classes}),
-        'library_handler_cases': n_easy[0], 'c_api_cases': n_capi[0],
+        'library_handler_cases': n_easy[0], 'library_handler_cases_with_nonidentity_permutation_and_primal_vector': n_perm[0], 'c_api_cases': n_capi[0], 'c_api_options_blocks_delivered_in_full': n_capi_opts[0], 'c_api_options_blocks_with_more_than_9_values': n_capi_opts[1],
         'correspondence': {'lines_compared_model_vs_impl': len(cases), 'disagreements': len(corr_bad)},
         'exhaustive': False,
     })
